@@ -138,6 +138,17 @@ def cases(tier, seed):
                      # (the rule above takes heartbeat h out of this rule's count: its h-th is the one after)
                      ("Heartbeat", h, "error", 27)],
                     latency0=rng.random() < 0.5, peers=0, dense=True)
+    # a failed coordinator lookup, then - in the join its retry timer starts - a failed metadata load
+    for code in (15, 16, 14):
+        for mk in (("silent", 0), ("drop", 0), ("garbage", 0), ("error", 5)):
+            for k in (0, 1, 2):
+                add([("FindCoordinator", 0, "error", code), ("Metadata", k, mk[0], mk[1])], latency0=(k % 2 == 0),
+                    peers=0)
+    # members with different subscriptions: the member under watch leads a group in which somebody subscribes to a
+    # topic it does not (its partition lookup as leader has to cover the others' topics too)
+    for k in range(8 if tier == "quick" else 60):
+        add([] if k % 2 == 0 else [("Heartbeat", 1 + k % 3, "error", 27)], latency0=(k % 4 < 2), peers=1 + (k % 3 == 2),
+            mixed_topics=(["ga", "gb"], ["gb"])[(k // 2) % 2], dense=(k % 2 == 1))
     add([("JoinGroup", 0, "silent", 0)], latency0=True, long=True)
     add([("JoinGroup", 1, "silent", 0)], latency0=False, long=True, peers=1)
     core = [s_ for s_ in S if s_[1] in (0, 1) and s_[0] != "processor"]
@@ -188,6 +199,11 @@ def build(spec):
                                               round(rng.choice((0.0, 1.5, 4.0)), 3)), procs=[["sync"]] * 8)
         p["timing"] = dict(m0["timing"])
         members.append(p)
+    if spec.get("mixed_topics"):
+        sc["topics"] = {"ga": 2, "gb": 2}
+        for p in members[1:]:
+            p["topics"] = list(spec["mixed_topics"])
+            p["start"] = max(p["start"], 0.2)  # the member under watch joins first and leads
     sc["members"] = members
     sc["events"] = [[0.6, "append", "ga", 0, 2], [2.2, "append", "ga", 0, 1], [5.0, "append", "ga", 0, 2]]
     if spec.get("dense"):
@@ -362,7 +378,12 @@ class Mon(object):
             full = mm.group(1) if mm else "?"
             if full.startswith("afkak.common."):
                 return "kafka-error-escaped-join_and_sync/%s" % full.split(".")[-1]
-            return "non-kafka-exception-escaped-join_and_sync"
+            # the listed finding's history: another library's member whose subscription the leader cannot decode
+            # (UnicodeDecodeError out of generate_assignments).  Any other exception getting out of the join, or
+            # this one without such a member in the group, is a different history.
+            if full.endswith("UnicodeDecodeError") and self.spec.get("foreign"):
+                return "non-kafka-exception-escaped-join_and_sync"
+            return "non-kafka-exception-escaped-join_and_sync/%s" % full.split(".")[-1]
         if getattr(m.group, "_rejoin_d", None):
             stuck = [c for c in m.consumers if getattr(c["obj"], "_shutdown_d", None) is not None]
             if stuck:
